@@ -82,6 +82,9 @@ func TestC09_Introspection(t *testing.T) {
 		Weights: map[string]int{"authorize": 4, "redeem": 4, "refresh": 3, "revoke": 2, "advance": 2, "password": 1, "clientcreds": 1, "introspect": 8, "deviceAuth": 1, "deviceDecide": 1, "devicePoll": 1},
 		Stores:  []string{"mem", "mem", "tx"}, JWT: []bool{false, false, true}, RefreshScopeModes: []int{0, 0, 1},
 		Flows: allFlows, ShortLived: true,
+		MutateDraw: func(rt *rapid.T, c *fosite.Config) {
+			c.DisableRefreshTokenValidation = rapid.IntRange(0, 3).Draw(rt, "disableRefreshTokenValidation") == 0
+		},
 	}, func(l map[string]bool) bool {
 		return anyPrefix(l, "introspect-caller=") && (l["refresh-ok"] || l["revoke-live"] || l["code-replay"] || l["refresh-replay"])
 	})
